@@ -178,6 +178,25 @@ def rules(case, res):
                 S.send_payload(q, msg.encode())
                 S.sig("many-matchers", n)
             S.settle()
+            # every number of matchers from 2 up to the configured maximum (names repeat: there are only six), the one matcher that
+            # decides in first, middle and last position: the selection is that of the conjunction, whatever the count
+            for n in range(2, S.max_matchers + 1):
+                for pos in (0, n // 2, n - 1):
+                    S.idc += 1
+                    i = S.idc + 40000
+                    fill = [("startsWith", "a"), ("contains", "b"), ("endsWith", "c")]
+                    items = [fill[k % 3] for k in range(n)]
+                    items[pos] = ("equals", "abc")
+                    body_ = "{" + ",".join('"%s":"%s"' % kv for kv in items) + "}"
+                    msg = '{"id":%d,"method":"get","params":{"path":%s}}' % (i, body_)
+                    if len(msg) > S.max_msg - 20:
+                        continue
+                    p = S._register(q, {"id": i, "method": "get", "params": {"path": dict(items)}})
+                    p.may_refuse = True
+                    S.send_payload(q, msg.encode())
+                    S.sig("matcher-count", n, pos == 0, pos == n - 1)
+                    S.stats["matcher_count_rules"] += 1
+                S.settle()
             # repeated option key with identical values: refused or treated as given once
             for ci in (True, False):
                 for m, o in (("startsWith", "a"), ("contains", "B"), ("equals", "AB")):
